@@ -3,6 +3,9 @@
 import json, os
 HERE = os.path.dirname(os.path.abspath(__file__))
 CLAIMED = {
+ 'C02': ('proof', 'Every send_frame effect reachable in any of the 65 536 (ToS, opcode) cells, on every path including fault paths, is examined: cell (solicited only), count, header byte origins, per-opcode structure (Hello TLV chain parsed over symbolic offsets: host id first, legal lengths, no duplicate, end marker last), every byte below the length determined (zero fill / initialised store), length within the buffer sized from the MTU and Hello <= 576.',
+         'clang AST, lltdsa engine, oracle TLV table, port contract; QueryResp count field vs list length relies on the count=length invariant (checked structurally under C07)',
+         'abstract interpretation (effect trace + buffer snapshots with byte origins) over the dispatch matrix; symbolic parse of transmitted buffers', '4 (C02)'),
  'C09': ('proof', 'Non-interference argument in three checked steps: fresh record all-zero; after a topology Reset every field (from the record layout) is zero or untouched; with the untouched fields as unconstrained STALE symbols all 65 536 dispatch cells are interpreted and no STALE symbol survives in a transmitted byte, length, pause, allocation size or in the path knowledge of any final state; closed over the abstract states (mapper known?, STALE byte set) reachable afterwards.',
          'clang AST, lltdsa engine (merging joins away constraints of re-joining paths), port contract; log output is not considered behaviour',
          'abstract interpretation + origin/taint tracking of pre-Reset state (non-interference)', '4 (C09)'),
